@@ -159,6 +159,27 @@ SpecialDocs == {<<"date and time", "(", "\"2021-03-28T02:30:00@Europe/Paris\"", 
                 <<"@", "\"2021-01-01\"", "-", "@", "\"P999999999999D\"">>,
                 <<"@", "\"2021-01-31T10:00:00\"", "+", "@", "\"P1M\"">>,
                 <<"@", "\"10:00:00\"", "+", "@", "\"P999999999D\"">>,
+                <<"date and time", "(", "\"2300-01-01T00:00:00Z\"", ")", "-", "date and time", "(", "\"2000-01-01T00:00:00Z\"", ")">>,
+                <<"date and time", "(", "\"2000-01-01T00:00:00Z\"", ")", "-", "date and time", "(", "\"2300-01-01T00:00:00Z\"", ")">>,
+                <<"date and time", "(", "\"9999-12-31T23:59:59.999999999Z\"", ")", "-", "date and time", "(", "\"0001-01-01T00:00:00Z\"", ")">>,
+                <<"date and time", "(", "\"262000-01-01T00:00:00Z\"", ")", "-", "date and time", "(", "\"-262000-01-01T00:00:00Z\"", ")">>,
+                <<"date and time", "(", "\"2262-04-11T23:47:16.854775807Z\"", ")", "-", "date and time", "(", "\"1970-01-01T00:00:00Z\"", ")">>,
+                <<"date and time", "(", "\"2262-04-11T23:47:16.854775808Z\"", ")", "-", "date and time", "(", "\"1970-01-01T00:00:00Z\"", ")">>,
+                <<"date", "(", "\"9999-12-31\"", ")", "-", "date", "(", "\"0001-01-01\"", ")">>,
+                <<"date", "(", "\"2300-01-01\"", ")", "-", "date", "(", "\"2000-01-01\"", ")">>,
+                <<"@", "\"2300-01-01T00:00:00\"", "-", "@", "\"2000-01-01T00:00:00\"">>,
+                <<"@", "\"2300-01-01T00:00:00@Europe/Paris\"", "<", "@", "\"2000-01-01T00:00:00Z\"">>,
+                <<"@", "\"2021-01-01T00:00:00Z\"", "+", "@", "\"P106751DT23H47M16.854775807S\"">>,
+                <<"@", "\"2021-01-01T00:00:00Z\"", "+", "@", "\"P106752D\"">>,
+                <<"@", "\"2021-01-01T00:00:00Z\"", "-", "@", "\"P106752D\"">>,
+                <<"duration", "(", "\"P106751DT23H47M16.854775807S\"", ")", "+", "duration", "(", "\"PT0.000000001S\"", ")">>,
+                <<"duration", "(", "\"P106751DT23H47M16.854775808S\"", ")">>,
+                <<"duration", "(", "\"-P106751DT23H47M16.854775808S\"", ")", "-", "duration", "(", "\"PT1S\"", ")">>,
+                <<"@", "\"P106751D\"", "*", "2">>,
+                <<"@", "\"P53376D\"", "*", "2.5">>,
+                <<"@", "\"P106751D\"", "/", "0.5">>,
+                <<"@", "\"10:00:00\"", "-", "@", "\"P106752D\"">>,
+                <<"@", "\"10:00:00Z\"", "-", "@", "\"09:00:00+14:00\"">>,
                 <<"day of year", "(", "@", "\"999999999-12-31\"", ")">>,
                 <<"week of year", "(", "@", "\"-999999999-01-01\"", ")">>,
                 <<"month of year", "(", "null", ")">>,
@@ -197,7 +218,9 @@ FaultSeeds == {RenderMin(Fill(tp, C)) : tp \in Templates} \cup {RenderMin(h) : h
                     <<"some", "i", "in", "[", "1", ",", "2", "]", "satisfies", "i", ">", "1">>, <<"[", "1", "..", "5", ")">>, <<"not", "(", "1", ",", "[", "2", "..", "3", "]", ")">>,
                     <<"function", "(", "u", ":", "number", ")", "u", "+", "1">>, <<"x", "[", "item", ">", "1", "]">>, <<"a", "instance of", "function", "<", "number", ">", "->", "string">>}
 Alphabet == {<<t>> : t \in {"(", ")", "[", "]", "{", "}", ",", ":", ".", "..", "-", "+", "*", "**", "/", "=", "<", ">=", "!=", "in", "and", "or", "not", "if", "then", "else", "for", "return",
-                            "some", "every", "satisfies", "function", "between", "instance of", "null", "true", "1", "0.5", "a", "item", "\"s\"", "\"", "@", "?", "->", "external", "//", "/*", "*/"}}
+                            "some", "every", "satisfies", "function", "between", "instance of", "null", "true", "1", "0.5", "a", "item", "\"s\"", "\"", "@", "?", "->", "external", "//", "/*", "*/",
+                            \* white space characters of the grammar other than the blank (the harness writes the character for <U+XXXX>)
+                            "<U+200B>", "<U+00A0>", "<U+FEFF>", "<U+2028>", "<U+0085>", "<U+3000>", "<U+000B>"}}
             \cup {<<"(", ")">>, <<"[", "]">>, <<"-", "-">>, <<"in", "(">>, <<"a", " ", "b">>}
 SmallAlphabet == {<<t>> : t \in {"(", "[", ",", "-", "in", "\""}}
 Mutants(d, alpha) == {Apply(d, op) : op \in SingleFaults(d, alpha)}
